@@ -1,5 +1,7 @@
 import SwimVerif.Driver
 import SwimVerif.Model.LaneFail
+-- the oracle lemmas are built (and so re-checked) with the driver on every `./check C04`
+import SwimVerif.Proofs.LaneFail
 
 namespace SwimVerif.Machines.LaneFail
 open SwimVerif
